@@ -420,16 +420,24 @@ pub fn generate(seed: u64, opts: &GenOptions) -> Scenario {
     let mut reserve_policy = false;
     let template_base = n_contract + 1;
     match profile {
-        Profile::Conflict if g.rng.chance(7, 10) => {
-            let probes = g.rng.chance(1, 2);
-            intents = crate::templates::conflict_dense(g.rng, n_eoa, template_base, opts.max_txs, probes, &mut pre_state);
+        Profile::Conflict if g.rng.chance(8, 10) => {
+            intents = if g.rng.chance(1, 6) {
+                crate::templates::reward_race(g.rng, n_eoa, template_base, opts.max_txs, &mut pre_state)
+            } else {
+                let probes = g.rng.chance(1, 2);
+                crate::templates::conflict_dense(g.rng, n_eoa, template_base, opts.max_txs, probes, &mut pre_state)
+            };
         }
         Profile::Mixed if g.rng.chance(1, 5) => {
             let probes = g.rng.chance(1, 3);
             intents = crate::templates::conflict_dense(g.rng, n_eoa, template_base, opts.max_txs, probes, &mut pre_state);
         }
-        Profile::Beneficiary if g.rng.chance(1, 3) => {
-            intents = crate::templates::conflict_dense(g.rng, n_eoa, template_base, opts.max_txs, true, &mut pre_state);
+        Profile::Beneficiary if g.rng.chance(1, 2) => {
+            intents = if g.rng.chance(1, 2) {
+                crate::templates::conflict_dense(g.rng, n_eoa, template_base, opts.max_txs, true, &mut pre_state)
+            } else {
+                crate::templates::reward_race(g.rng, n_eoa, template_base, opts.max_txs, &mut pre_state)
+            };
         }
         Profile::Lifecycle if g.rng.chance(2, 3) => {
             intents = crate::templates::lifecycle(g.rng, spec, n_eoa, template_base, &mut pre_state);
